@@ -278,6 +278,7 @@ def dea_table(ctx, ex):
             obj = D(limexp=limexp)
             s = [Poly.sym('s%d' % k) for k in range(nterms)]
             problems = []
+            floor_problems = []
             from ..engine import budget
             try:
               with budget(60, 'Dea table limexp=%d' % limexp):
@@ -287,6 +288,9 @@ def dea_table(ctx, ex):
                         if not same(val, s[n]):
                             problems.append('term %d: returned %r' % (n, val))
                         continue
+                    es = repr(err)
+                    if not (es.startswith('max(') and 'EPS' in es and 'abs(' in es):
+                        floor_problems.append('term %d: error estimate %s' % (n, es[:80]))
                     # the window of terms the table can hold
                     width = min(n + 1, limexp)
                     cands = []
@@ -304,6 +308,10 @@ def dea_table(ctx, ex):
                 if not problems:
                     rep.undecided('R-DEA-TABLE', 'extrapolation.Dea._dea', exc, 'limexp=%d/prefer_new=%s' % (limexp, prefer_new))
                     continue
+            rep.check(not floor_problems, 'R-DEA-FLOOR', 'extrapolation.Dea._dea', where,
+                      {'limexp': limexp, 'terms_fed': nterms, 'problems': floor_problems[:3]},
+                      'from the third term on the reported error is max(.., 5*EPS*|result|), on every call',
+                      'limexp=%d/prefer_new=%s' % (limexp, prefer_new), key='dea-floor-later-terms')
             rep.check(not problems, 'R-DEA-TABLE', 'extrapolation.Dea._dea', where,
                       {'limexp': limexp, 'terms_fed': nterms, 'problems': problems[:2]},
                       'every value is an entry of the exact epsilon table of the terms in the table',
